@@ -9,6 +9,7 @@ import (
 	"testing"
 
 	"github.com/LiskHQ/lisk-engine/pkg/blockchain"
+	"github.com/LiskHQ/lisk-engine/pkg/db"
 	"github.com/LiskHQ/lisk-engine/pkg/db/diffdb"
 	"pgregory.net/rapid"
 
@@ -400,4 +401,90 @@ func TestRegressCacheRefill(t *testing.T) {
 		t.Fatalf("apply after removals: %v", err)
 	}
 	evid.R.Case("regress-cache-refill", true, func() any { return "cache=2, apply 3, delete 3, apply" }, "regress")
+}
+
+// The state-diff mechanism underneath deleteBlock, driven directly with every in-block key pattern (including patterns the
+// BFT module itself never produces, e.g. delete-then-recreate of a stored key): commit a staged block exactly as
+// processValidated does, then revert its diff exactly as deleteBlock does; the store must be byte-identical to before.
+func TestDiffApplyRevert(t *testing.T) {
+	rapid.Check(t, func(t *rapid.T) {
+		d, err := db.NewInMemoryDB()
+		if err != nil {
+			t.Fatal(err)
+		}
+		defer d.Close()
+		prefix := []byte{10}
+		keyGen := rapid.SliceOfN(rapid.SampledFrom([]byte{0, 1, 0x61, 0xff}), 1, 3)
+		valGen := rapid.SliceOfN(rapid.Byte(), 0, 4)
+		nInit := rapid.IntRange(0, 8).Draw(t, "initial")
+		for i := 0; i < nInit; i++ {
+			d.Set(append(append([]byte{}, prefix...), keyGen.Draw(t, "k0")...), valGen.Draw(t, "v0"))
+		}
+		d.Set([]byte{9, 9}, []byte{1}) // a record outside the state prefix must never be touched
+		dump := func() map[string]string {
+			m := map[string]string{}
+			for _, kv := range d.Iterate([]byte{}, -1, false) {
+				m[string(kv.Key())] = string(kv.Value())
+			}
+			return m
+		}
+		blocks := rapid.IntRange(1, 3).Draw(t, "blocks")
+		var befores []map[string]string
+		var diffKeys [][]byte
+		var log []string
+		recreate := false
+		for b := 0; b < blocks; b++ {
+			befores = append(befores, dump())
+			st := diffdb.New(d, prefix)
+			deleted := map[string]bool{}
+			nOps := rapid.IntRange(1, 10).Draw(t, "ops")
+			for i := 0; i < nOps; i++ {
+				k := keyGen.Draw(t, "k")
+				switch rapid.SampledFrom([]string{"set", "set", "del", "get"}).Draw(t, "op") {
+				case "set":
+					v := valGen.Draw(t, "v")
+					if _, existed := befores[b][string(append(append([]byte{}, prefix...), k...))]; existed && deleted[string(k)] {
+						recreate = true
+					}
+					st.Set(k, v)
+					log = append(log, fmt.Sprintf("b%d set %x=%x", b, k, v))
+				case "del":
+					st.Del(k)
+					deleted[string(k)] = true
+					log = append(log, fmt.Sprintf("b%d del %x", b, k))
+				default:
+					st.Get(k)
+				}
+			}
+			batch := d.NewBatch()
+			diff := st.Commit(batch)
+			dk := []byte{51, byte(b)}
+			batch.Set(dk, diff.Encode())
+			d.Write(batch)
+			diffKeys = append(diffKeys, dk)
+		}
+		for b := blocks - 1; b >= 0; b-- {
+			raw, ok := d.Get(diffKeys[b])
+			if !ok {
+				t.Fatalf("diff record missing")
+			}
+			diff := &diffdb.Diff{}
+			if err := diff.Decode(raw); err != nil {
+				t.Fatal(err)
+			}
+			batch := d.NewBatch()
+			diffdb.New(d, prefix).RevertDiff(batch, diff)
+			batch.Del(diffKeys[b])
+			d.Write(batch)
+			got, want := dump(), befores[b]
+			if dd := diffDumps(want, got); dd != "" {
+				t.Fatalf("apply+revert of block %d does not restore the store:\n%s\nops: %v", b, dd, log)
+			}
+		}
+		labels := []string{"diff-apply-revert"}
+		if recreate {
+			labels = append(labels, "delete-then-recreate-of-stored-key")
+		}
+		evid.R.Case("diff|"+strings.Join(log, ";"), recreate || blocks > 1, nil, labels...)
+	})
 }
